@@ -19,6 +19,9 @@ fn main() {
             return;
         }
         "world" => sv::eng_world::run(&mut rep),
+        "storage" => sv::eng_storage::run(&mut rep),
+        "saveload" => sv::eng_saveload::run(&mut rep),
+        "dispatch" => sv::eng_dispatch::run(&mut rep),
         other => {
             eprintln!("unknown engine {:?}", other);
             std::process::exit(3);
